@@ -111,6 +111,9 @@ func c19Alphabet() []fstep {
 		{F: "R", K: "url", Strict: true, Params: map[string]string{"id": "5"}},
 		{F: "R", K: "url", Params: map[string]string{"x": "5"}},
 		{F: "Rq", K: "url", Strict: true},
+		// four more literal siblings under /p/ in one step: the node gets its first-byte index
+		{F: "Pp", K: "fill"},
+		{F: "Ps", K: "remove", P: "a2"},
 	}
 }
 
@@ -173,6 +176,10 @@ func applyFacade(a *Router, s fstep) (string, any, bool) {
 				f.Patch(s.P, h, m...)
 			case "any":
 				f.Any(s.P, h, m...)
+			case "fill":
+				for _, x := range []string{"/a1", "/a2", "/b1", "/c1"} {
+					f.Get(x, hv.Route("h:fill"+x))
+				}
 			case "handle":
 				f.Handle(s.P, h, m, s.Ms...)
 			case "remove":
@@ -223,6 +230,10 @@ func applyPlain(b *Router, s fstep) (string, any, bool) {
 		switch s.K {
 		case "get", "post", "delete", "put", "patch", "any":
 			b.Handle(pattern, h, all, kindMethods[s.K]...)
+		case "fill":
+			for _, x := range []string{"/a1", "/a2", "/b1", "/c1"} {
+				b.Handle(text+x, hv.Route("h:fill"+x), mws(nil, fm), "GET")
+			}
 		case "handle":
 			b.Handle(pattern, h, all, s.Ms...)
 		case "remove":
@@ -252,7 +263,7 @@ func applyPlain(b *Router, s fstep) (string, any, bool) {
 
 var c19Probes = func() []hv.Req {
 	var qs []hv.Req
-	paths := []string{"/p/y", "/p/zz", "/py", "/p/7/x", "/p/7", "p/y", "/p/q/z", "/p", "/p/r/5", "/res", "/p/q", "/p/q/", "/nowhere"}
+	paths := []string{"/p/a1", "/p/a2", "/p/c1", "/p/y", "/p/zz", "/py", "/p/7/x", "/p/7", "p/y", "/p/q/z", "/p", "/p/r/5", "/res", "/p/q", "/p/q/", "/nowhere"}
 	for _, p := range paths {
 		for _, m := range []string{"GET", "POST", "DELETE", "PUT", "PATCH", "OPTIONS", "BOGUS", "HEAD"} {
 			qs = append(qs, hv.Req{Method: m, Path: p})
